@@ -90,6 +90,37 @@ def run(db, res, tier):
     txt = show(v)
     key = T("ld", "key_in", T("tid", 0))
     ok = isinstance(v, T) and v.op == "and" and len(v.args) == 2 and T("cmp", ">=", key, T("c", 0)) in v.args and T("cmp", "<", key, T("p", "nkey")) in v.args and ws[0].idx == (T("tid", 0),)
+    if not ok and ws[0].idx == (T("tid", 0),):
+      # any boolean combination equivalent to `key >= 0 and key < nkey`: decided by truth table over the two atoms
+      # A = (key < 0), B = (key < nkey) (comparisons normalised: >= is the negation of <)
+      A, B = T("cmp", "<", key, T("c", 0)), T("cmp", "<", key, T("p", "nkey"))
+
+      def ev(t, a, b):
+        if isinstance(t, T) and t.op in ("and", "all"):
+          vs = [ev(x, a, b) for x in t.args]
+          return None if None in vs else all(vs)
+        if isinstance(t, T) and t.op == "or":
+          vs = [ev(x, a, b) for x in t.args]
+          return None if None in vs else any(vs)
+        if isinstance(t, T) and t.op == "not":
+          x = ev(t.args[0], a, b)
+          return None if x is None else not x
+        if isinstance(t, T) and t.op == "lit":
+          x = ev(t.args[0], a, b)
+          return None if x is None else (x if t.args[1] else not x)
+        if isinstance(t, T) and t.op == "cmp":
+          op, l, r = t.args
+          neg = {">=": "<", "<=": ">"}.get(op)
+          base = T("cmp", neg, l, r) if neg else t
+          if base is A:
+            return (not a) if neg else a
+          if base is B:
+            return (not b) if neg else b
+        return None
+
+      # feasible combinations: key < 0 implies key < nkey (nkey >= 0)
+      rows = [(a, b) for a in (False, True) for b in (False, True) if not (a and not b)]
+      ok = all(ev(v, a, b) is ((not a) and b) for a, b in rows)
   res.ob(ok, "valid_key_mask|formula", Finding("R-GATE.4", "io.reset_data_keyframe.valid_key_mask|mask-formula", f"mask is `{show(ws[0].value) if ws else '?'}`, expected `key_in[worldid] >= 0 and key_in[worldid] < nkey` written at [worldid]", mfi.file))
   nk = dict((p.name, v) for p, v in l_mask[0].bindings)["nkey"]
   res.ob(nk.text.endswith(".nkey"), "valid_key_mask|nkey", Finding("R-BIND.1", "io.reset_data_keyframe.valid_key_mask|nkey", f"nkey bound to `{nk.text}`", l_mask[0].loc))
